@@ -252,6 +252,40 @@ class WorkflowRecovery:
         messages_queued = 0
         failed_pushes = 0
 
+        # A workflow that has not started yet is (re)started through
+        # StartWorkflow - idempotent: a duplicate finds the workflow no longer
+        # NOT_STARTED and is dropped. Its stages are never started directly:
+        # initial stages have no upstreams, so they always look startable, and
+        # starting them would bypass StartWorkflow's gates (concurrency limit
+        # / BUFFERED, cancel-before-start, start-time expiry) and leave a
+        # NOT_STARTED workflow whose stages ran and that can never complete.
+        if full_workflow.status == WorkflowStatus.NOT_STARTED:
+            try:
+                self.queue.push(
+                    StartWorkflow(
+                        execution_type=full_workflow.type.value,
+                        execution_id=full_workflow.id,
+                    )
+                )
+                return RecoveryResult(
+                    workflow_id=workflow.id,
+                    status="recovered",
+                    message="Re-queued workflow start",
+                    stages_requeued=0,
+                )
+            except Exception as e:
+                logger.warning(
+                    "Failed to re-queue StartWorkflow for %s: %s",
+                    workflow.id,
+                    e,
+                )
+                failed_pushes += 1
+                return RecoveryResult(
+                    workflow_id=workflow.id,
+                    status="failed",
+                    message=f"Failed to re-queue workflow start: {e}",
+                )
+
         for stage in full_workflow.stages:
             can_start = self._can_start(stage, full_workflow) if stage.status == WorkflowStatus.NOT_STARTED else None
             logger.debug(
@@ -280,39 +314,11 @@ class WorkflowRecovery:
 
         if not stages_to_requeue:
             # No stages to requeue, but workflow isn't complete
-            # This might mean we need to restart from the beginning
-            if full_workflow.status == WorkflowStatus.NOT_STARTED:
-                try:
-                    self.queue.push(
-                        StartWorkflow(
-                            execution_type=full_workflow.type.value,
-                            execution_id=full_workflow.id,
-                        )
-                    )
-                    return RecoveryResult(
-                        workflow_id=workflow.id,
-                        status="recovered",
-                        message="Re-queued workflow start",
-                        stages_requeued=0,
-                    )
-                except Exception as e:
-                    logger.warning(
-                        "Failed to re-queue StartWorkflow for %s: %s",
-                        workflow.id,
-                        e,
-                    )
-                    failed_pushes += 1
-                    return RecoveryResult(
-                        workflow_id=workflow.id,
-                        status="failed",
-                        message=f"Failed to re-queue workflow start: {e}",
-                    )
-            else:
-                return RecoveryResult(
-                    workflow_id=workflow.id,
-                    status="skipped",
-                    message="No stages need recovery",
-                )
+            return RecoveryResult(
+                workflow_id=workflow.id,
+                status="skipped",
+                message="No stages need recovery",
+            )
 
         # Collect all recovery messages, then push atomically via transaction
         # to prevent partial recovery on crash.
